@@ -218,6 +218,314 @@ Proof.
 Qed.
 
 (* ====================================================================== *)
+(* A2. bytes of an accepted struct: it starts with 30 and contains 02 or 06 *)
+(* ====================================================================== *)
+
+Lemma base128_go_suffix : forall left fst0 acc l v r,
+  base128_go left fst0 acc l = Some (v, r) -> exists pre, l = pre ++ r.
+Proof.
+  induction left as [|left IH]; intros fst0 acc l v r H; destruct l as [|b l]; cbn [base128_go] in H; try discriminate.
+  destruct (fst0 && (b =? 128)); [discriminate|].
+  destruct (b <? 128).
+  - destruct (2147483647 <? acc * 128 + b mod 128); [discriminate|]. inversion H; subst. now exists [b].
+  - apply IH in H as [pre ->]. now exists (b :: pre).
+Qed.
+
+Lemma len_bytes_suffix : forall n acc l v r, len_bytes n acc l = Some (v, r) -> exists pre, l = pre ++ r.
+Proof.
+  induction n as [|n IH]; intros acc l v r H; cbn [len_bytes] in H.
+  - inversion H; subst. now exists [].
+  - destruct l as [|b l]; [discriminate|]. destruct (8388608 <=? acc); [discriminate|].
+    destruct (acc * 256 + b =? 0); [discriminate|]. apply IH in H as [pre ->]. now exists (b :: pre).
+Qed.
+
+Lemma parse_len_suffix : forall l v r, parse_len l = Some (v, r) -> exists pre, l = pre ++ r.
+Proof.
+  intros l v r H. unfold parse_len in H. destruct l as [|b l]; [discriminate|].
+  destruct (b <? 128); [inversion H; subst; eexists [_]; reflexivity|].
+  destruct (b - 128 =? 0); [discriminate|].
+  destruct (len_bytes (N.to_nat (b - 128)) 0 l) as [[len r']|] eqn:E; [|discriminate].
+  destruct (len <? 128); [discriminate|]. inversion H; subst.
+  apply len_bytes_suffix in E as [pre ->]. now exists (b :: pre).
+Qed.
+
+(* the first byte of a value with a low tag number, and the rest being a suffix *)
+Lemma parse_header_first : forall b l h after, parse_header (b :: l) = Some (h, after) ->
+  (exists pre, l = pre ++ after) /\
+  (h_tag h < 31 -> h_class h = b / 64 /\ h_comp h = N.testbit b 5 /\ h_tag h = b mod 32).
+Proof.
+  intros b l h after H. unfold parse_header, parse_tag in H.
+  destruct (b mod 32 =? 31) eqn:E31.
+  - destruct (base128 l) as [[t' r']|] eqn:Eb; [|discriminate].
+    destruct (t' <? 31) eqn:Et; [discriminate|].
+    destruct (parse_len r') as [[len r2]|] eqn:El; [|discriminate]. inversion H; subst. cbn [h_tag].
+    split; [|intros Hlt; apply N.ltb_ge in Et; lia].
+    apply base128_go_suffix in Eb as [p1 ->]. apply parse_len_suffix in El as [p2 ->].
+    exists (p1 ++ p2). now rewrite app_assoc.
+  - destruct (parse_len l) as [[len r2]|] eqn:El; [|discriminate]. inversion H; subst. cbn.
+    split; [now apply parse_len_suffix in El|auto].
+Qed.
+
+Lemma byte_of_header : forall b, b < 256 -> b / 64 = 0 ->
+  b = (if N.testbit b 5 then 32 else 0) + b mod 32.
+Proof.
+  intros b Hb Hc.
+  pose proof (Proofs.Base64.forall_range
+                (fun b => negb (b / 64 =? 0) || (b =? (if N.testbit b 5 then 32 else 0) + b mod 32)) 256
+                ltac:(vm_compute; reflexivity) b Hb) as H.
+  cbv beta in H. rewrite Hc in H. cbn [N.eqb negb orb] in H. now apply N.eqb_eq in H.
+Qed.
+
+Lemma In_take : forall (A : Type) n (l : list A) x, In x (take n l) -> In x l.
+Proof.
+  induction n as [|n IH]; intros l x H; destruct l as [|y l]; cbn [take] in H; try contradiction.
+  destruct H as [->|H]; [now left|right; eauto].
+Qed.
+
+(* a required, untagged field that is not a RawValue starts with its universal tag byte *)
+Lemma field_first_byte : forall s bs r, bytes_ok bs = true -> is_raw s = false ->
+  parse_field s false None bs = Some r ->
+  exists l, bs = (match utype s with (_, ut, uc) => (if uc then 32 else 0) + ut end) :: l
+            /\ forall x, In x (content bs) -> In x l.
+Proof.
+  intros s bs r Hb Hr H. apply req_field in H as [Ht _]. unfold tag_ok in Ht. unfold content.
+  destruct bs as [|b l]; [discriminate|]. exists l.
+  destruct (parse_header (b :: l)) as [[h after]|] eqn:E; [|discriminate].
+  apply parse_header_first in E as [[pre Hpre] Hlow].
+  cbn [bytes_ok forallb] in Hb. apply andb_true_iff in Hb as [Hb256 _]. unfold byte_ok in Hb256.
+  apply N.ltb_lt in Hb256.
+  assert (Hut : match utype s with (any, ut, uc) => any = false /\ ut < 31 end).
+  { destruct s; try discriminate; cbn; split; reflexivity || lia. }
+  destruct (utype s) as [[any ut] uc]. destruct Hut as [-> Hut]. cbn [orb] in Ht.
+  apply andb_true_iff in Ht as [Ht Hc]. apply andb_true_iff in Ht as [Hcl Htag].
+  apply N.eqb_eq in Hcl, Htag. apply Bool.eqb_prop in Hc.
+  destruct (Hlow ltac:(lia)) as (H1 & H2 & H3).
+  split.
+  - f_equal. rewrite (byte_of_header b Hb256) at 1 by lia.
+    rewrite <- H2, <- H3, Hc, Htag. reflexivity.
+  - intros x Hx. apply In_take in Hx. rewrite Hpre. apply in_or_app. now right.
+Qed.
+
+Lemma bytes_ok_In : forall l, bytes_ok l = true -> forall x, In x l -> x < 256.
+Proof.
+  intros l H x Hx. unfold bytes_ok in H. rewrite forallb_forall in H. specialize (H x Hx).
+  unfold byte_ok in H. now apply N.ltb_lt.
+Qed.
+
+Lemma bytes_ok_sub : forall l l', bytes_ok l = true -> (forall x, In x l' -> In x l) -> bytes_ok l' = true.
+Proof.
+  intros l l' H Hs. unfold bytes_ok in *. apply forallb_forall. intros x Hx.
+  rewrite forallb_forall in H. apply H. now apply Hs.
+Qed.
+
+(* the children of an accepted struct are bytes of the input, which starts with 30 *)
+Lemma seq_inner_bytes : forall d inner, bytes_ok d = true -> seq_inner d = Some inner ->
+  starts_seq d = true /\ forall x, In x inner -> In x d.
+Proof.
+  intros d inner Hb H. unfold seq_inner in H.
+  destruct (locate (SSeq FNil) false None d) as [| |i r] eqn:E; try discriminate. inversion H; subst i.
+  assert (P : parse_field (SSeq FNil) false None d = Some r).
+  { rewrite parse_field_eq, E. reflexivity. }
+  apply locate_required in E as (_ & -> & _).
+  destruct (field_first_byte (SSeq FNil) d r Hb eq_refl P) as [l [-> Hin]]. cbn in *.
+  split; [reflexivity|]. intros x Hx. right. now apply Hin.
+Qed.
+
+Lemma first_field_byte_in : forall s r0 inner x, bytes_ok inner = true -> is_raw s = false ->
+  parse_fields (req s r0) inner = Some x ->
+  In (match utype s with (_, ut, uc) => (if uc then 32 else 0) + ut end) inner.
+Proof.
+  intros s r0 inner x Hb Hr H. unfold req in H. rewrite parse_fields_cons in H.
+  destruct (parse_field s false None inner) eqn:F; [|discriminate].
+  destruct (field_first_byte s inner b Hb Hr F) as [l [-> _]]. now left.
+Qed.
+
+Lemma cls_2_6 : cls 2 = cX /\ cls 6 = cX.
+Proof. split; vm_compute; reflexivity. Qed.
+
+Lemma not_text_of_byte : forall d c, In c d -> cls c = cX -> not_text d = true.
+Proof.
+  intros d c Hin Hc. unfold not_text. apply existsb_exists. exists c. split; [assumption|]. rewrite Hc. apply N.eqb_refl.
+Qed.
+
+(* every accepted object of kinds 1..6 starts with the SEQUENCE tag and contains a tag byte
+   02 (INTEGER) or 06 (OBJECT IDENTIFIER), which is not a base64 character *)
+Lemma int_first_shape : forall s1 r0 d, is_raw s1 = false -> utype s1 = (false, 2, false) ->
+  bytes_ok d = true -> accepts (SSeq (req s1 r0)) d = true ->
+  starts_seq d = true /\ not_text d = true.
+Proof.
+  intros s1 r0 d Hr Hu Hb Ha. rewrite accepts_seq in Ha.
+  destruct (seq_inner d) as [inner|] eqn:Ei; [|discriminate].
+  destruct (parse_fields (req s1 r0) inner) eqn:Ef; [|discriminate].
+  destruct (seq_inner_bytes d inner Hb Ei) as [Hs Hin]. split; [assumption|].
+  pose proof (first_field_byte_in s1 r0 inner b (bytes_ok_sub d inner Hb Hin) Hr Ef) as H2.
+  rewrite Hu in H2. cbn in H2. apply (not_text_of_byte d 2); [now apply Hin|apply cls_2_6].
+Qed.
+
+Lemma pkix_shape : forall d, bytes_ok d = true -> accepts s_pkix d = true ->
+  starts_seq d = true /\ not_text d = true.
+Proof.
+  intros d Hb Ha. unfold s_pkix in Ha. rewrite accepts_seq in Ha.
+  destruct (seq_inner d) as [inner|] eqn:Ei; [|discriminate].
+  destruct (parse_fields _ inner) eqn:Ef; [|discriminate].
+  destruct (seq_inner_bytes d inner Hb Ei) as [Hs Hin]. split; [assumption|].
+  assert (Hbi := bytes_ok_sub d inner Hb Hin).
+  unfold req in Ef at 1. rewrite parse_fields_cons in Ef.
+  destruct (parse_field s_algid false None inner) as [r|] eqn:F; [|discriminate].
+  destruct (field_first_byte s_algid inner r Hbi eq_refl F) as [l [El Hc]].
+  unfold s_algid in F. rewrite parse_field_eq in F.
+  destruct (locate (SSeq (req SOid (opt SRaw FNil))) false None inner) as [| |inner2 rest] eqn:E; try discriminate.
+  { exfalso. eapply locate_required_noskip; eauto. }
+  apply locate_required in E as (_ & -> & _).
+  destruct (parse_fields (req SOid (opt SRaw FNil)) (content inner)) eqn:F2; [|discriminate].
+  assert (Hsub : forall x, In x (content inner) -> In x inner).
+  { intros x Hx. rewrite El. right. now apply Hc. }
+  pose proof (first_field_byte_in SOid _ (content inner) b0 (bytes_ok_sub inner _ Hbi Hsub) eq_refl F2) as H6.
+  cbn in H6. apply (not_text_of_byte d 6); [now apply Hin, Hsub|apply cls_2_6].
+Qed.
+
+Lemma key_shape : forall k s d, schema_of k = Some s -> bytes_ok d = true -> accepts s d = true ->
+  starts_seq d = true /\ not_text d = true.
+Proof.
+  intros k s d Hs Hb Ha.
+  destruct k as [|[|[|[|[|[|[|k]]]]]]]; cbn in Hs; inversion Hs; subst; clear Hs.
+  - unfold s_pkcs8 in Ha. now apply (int_first_shape SInt) in Ha.
+  - now apply pkix_shape.
+  - unfold s_pkcs1pub in Ha. now apply (int_first_shape SBigInt) in Ha.
+  - unfold s_sec1 in Ha. now apply (int_first_shape SInt) in Ha.
+  - unfold s_pkcs1priv in Ha. now apply (int_first_shape SInt) in Ha.
+  - unfold s_dsapriv in Ha. now apply (int_first_shape SInt) in Ha.
+Qed.
+
+(* ====================================================================== *)
+(* A3. an accepted struct has a byte that is no hex digit among offsets 1..4 *)
+(* ====================================================================== *)
+
+Lemma parse_len_shape : forall l v r, parse_len l = Some (v, r) ->
+  exists b1 pre, l = b1 :: pre ++ r /\ (b1 < 128 -> pre = []).
+Proof.
+  intros l v r H. unfold parse_len in H. destruct l as [|b l]; [discriminate|].
+  destruct (b <? 128) eqn:Eb.
+  - inversion H; subst. exists v, []. split; [reflexivity|auto].
+  - destruct (b - 128 =? 0); [discriminate|].
+    destruct (len_bytes (N.to_nat (b - 128)) 0 l) as [[len r']|] eqn:E; [|discriminate].
+    destruct (len <? 128); [discriminate|]. inversion H; subst.
+    apply len_bytes_suffix in E as [pre ->]. exists b, pre. split; [reflexivity|].
+    intros Hlt. apply N.ltb_ge in Eb. lia.
+Qed.
+
+Lemma header_shape : forall b l h after, parse_header (b :: l) = Some (h, after) -> b mod 32 <> 31 ->
+  exists b1 pre, l = b1 :: pre ++ after /\ (b1 < 128 -> pre = []).
+Proof.
+  intros b l h after H Hb. unfold parse_header, parse_tag in H.
+  destruct (b mod 32 =? 31) eqn:E31; [apply N.eqb_eq in E31; contradiction|].
+  destruct (parse_len l) as [[len r2]|] eqn:El; [|discriminate]. inversion H; subst.
+  now apply parse_len_shape in El.
+Qed.
+
+Lemma take_cons_inv : forall (A : Type) n (l : list A) x t, take n l = x :: t ->
+  exists l', l = x :: l' /\ exists n', t = take n' l'.
+Proof.
+  intros A n l x t H. destruct n as [|n]; [discriminate|]. destruct l as [|y l]; [discriminate|].
+  cbn [take] in H. inversion H; subst. eauto.
+Qed.
+
+Lemma is_hex_high : forall b, 128 <= b -> is_hex b = false.
+Proof. intros b H. unfold is_hex. lia. Qed.
+
+Lemma hex7_at1 : forall c0 b1 x, is_hex b1 = false -> hex7 (c0 :: b1 :: x) = false.
+Proof. intros. unfold hex7. cbn [firstn forallb]. rewrite H. cbn [andb]. apply andb_false_r. Qed.
+Lemma hex7_at2 : forall c0 b1 b2 x, is_hex b2 = false -> hex7 (c0 :: b1 :: b2 :: x) = false.
+Proof. intros. unfold hex7. cbn [firstn forallb]. rewrite H. rewrite !andb_false_r. reflexivity. Qed.
+Lemma hex7_at3 : forall c0 b1 b2 b3 x, is_hex b3 = false -> hex7 (c0 :: b1 :: b2 :: b3 :: x) = false.
+Proof. intros. unfold hex7. cbn [firstn forallb]. rewrite H. rewrite !andb_false_r. reflexivity. Qed.
+Lemma hex7_at4 : forall c0 b1 b2 b3 b4 x, is_hex b4 = false -> hex7 (c0 :: b1 :: b2 :: b3 :: b4 :: x) = false.
+Proof. intros. unfold hex7. cbn [firstn forallb]. rewrite H. rewrite !andb_false_r. reflexivity. Qed.
+
+(* the outer header: 30, then either a long-form length byte or a short one followed by the children *)
+Lemma seq_outer_shape : forall d inner, bytes_ok d = true -> seq_inner d = Some inner ->
+  exists b1 x, d = 48 :: b1 :: x /\
+    (128 <= b1 \/ forall t u, inner = t :: u -> exists x', x = t :: x' /\ exists n, u = take n x').
+Proof.
+  intros d inner Hb H.
+  destruct (seq_inner_bytes d inner Hb H) as [Hs _]. unfold starts_seq in Hs.
+  destruct d as [|c l]; [discriminate|].
+  assert (c = 48). { destruct c as [|p]; [discriminate|]. do 6 (destruct p; try discriminate). reflexivity. }
+  subst c. unfold seq_inner in H.
+  destruct (locate (SSeq FNil) false None (48 :: l)) as [| |i r] eqn:E; try discriminate. inversion H; subst i.
+  apply locate_required in E as (Ht & Hi & _). unfold tag_ok in Ht. unfold content in Hi.
+  destruct (parse_header (48 :: l)) as [[h after]|] eqn:Eh; [|discriminate].
+  apply header_shape in Eh as (b1 & pre & -> & Hpre); [|discriminate].
+  exists b1, (pre ++ after). split; [reflexivity|].
+  destruct (b1 <? 128) eqn:E1; [right|left; now apply N.ltb_ge in E1].
+  apply N.ltb_lt in E1. rewrite (Hpre E1). cbn [app]. intros t u Hu. rewrite Hu in Hi.
+  symmetry in Hi. now apply take_cons_inv in Hi.
+Qed.
+
+Lemma int_first_not_hex7 : forall s1 r0 d, is_raw s1 = false -> utype s1 = (false, 2, false) ->
+  bytes_ok d = true -> accepts (SSeq (req s1 r0)) d = true -> hex7 d = false.
+Proof.
+  intros s1 r0 d Hr Hu Hb Ha. rewrite accepts_seq in Ha.
+  destruct (seq_inner d) as [inner|] eqn:Ei; [|discriminate].
+  destruct (parse_fields (req s1 r0) inner) eqn:Ef; [|discriminate].
+  destruct (seq_inner_bytes d inner Hb Ei) as [_ Hin].
+  unfold req in Ef. rewrite parse_fields_cons in Ef.
+  destruct (parse_field s1 false None inner) eqn:F; [|discriminate].
+  destruct (field_first_byte s1 inner b0 (bytes_ok_sub d inner Hb Hin) Hr F) as [l' [El _]].
+  rewrite Hu in El. cbn in El.
+  destruct (seq_outer_shape d inner Hb Ei) as (b1 & x & -> & [Hhi|Hlo]).
+  - apply hex7_at1. now apply is_hex_high.
+  - destruct (Hlo _ _ El) as (x' & -> & _). now apply hex7_at2.
+Qed.
+
+Lemma pkix_not_hex7 : forall d, bytes_ok d = true -> accepts s_pkix d = true -> hex7 d = false.
+Proof.
+  intros d Hb Ha. unfold s_pkix in Ha. rewrite accepts_seq in Ha.
+  destruct (seq_inner d) as [inner|] eqn:Ei; [|discriminate].
+  destruct (parse_fields _ inner) eqn:Ef; [|discriminate].
+  destruct (seq_inner_bytes d inner Hb Ei) as [_ Hin].
+  assert (Hbi := bytes_ok_sub d inner Hb Hin).
+  unfold req in Ef at 1. rewrite parse_fields_cons in Ef.
+  destruct (parse_field s_algid false None inner) as [r|] eqn:F; [|discriminate].
+  (* the AlgorithmIdentifier is itself an accepted struct whose first field is the OID *)
+  assert (Hacc : accepts s_algid inner = true) by (unfold accepts; now rewrite F).
+  unfold s_algid in Hacc. rewrite accepts_seq in Hacc.
+  destruct (seq_inner inner) as [inner2|] eqn:Ei2; [|discriminate].
+  destruct (parse_fields _ inner2) eqn:Ef2; [|discriminate].
+  destruct (seq_inner_bytes inner inner2 Hbi Ei2) as [_ Hin2].
+  unfold req in Ef2 at 1. rewrite parse_fields_cons in Ef2.
+  destruct (parse_field SOid false None inner2) eqn:F2; [|discriminate].
+  destruct (field_first_byte SOid inner2 b1 (bytes_ok_sub inner inner2 Hbi Hin2) eq_refl F2) as [l2 [El2 _]].
+  cbn in El2.
+  destruct (seq_outer_shape inner inner2 Hbi Ei2) as (b3 & y & Einner & Hcase).
+  destruct (seq_outer_shape d inner Hb Ei) as (c1 & x & -> & [Hhi|Hlo]).
+  { apply hex7_at1. now apply is_hex_high. }
+  destruct (Hlo _ _ Einner) as (x' & -> & n & Hy).
+  destruct Hcase as [Hhi3|Hlo3].
+  - (* inner length in long form *)
+    rewrite Hy in Einner. destruct x' as [|z x']; [destruct n; discriminate Hy|].
+    destruct n; [discriminate Hy|]. cbn [take] in Hy. inversion Hy; subst z.
+    apply hex7_at3. now apply is_hex_high.
+  - destruct (Hlo3 _ _ El2) as (y' & -> & _).
+    symmetry in Hy. apply take_cons_inv in Hy as (x'' & -> & n' & Hy').
+    symmetry in Hy'. apply take_cons_inv in Hy' as (x3 & -> & _).
+    now apply hex7_at4.
+Qed.
+
+Lemma key_not_hex7 : forall k s d, schema_of k = Some s -> bytes_ok d = true -> accepts s d = true ->
+  hex7 d = false.
+Proof.
+  intros k s d Hs Hb Ha.
+  destruct k as [|[|[|[|[|[|[|k]]]]]]]; cbn in Hs; inversion Hs; subst; clear Hs.
+  - unfold s_pkcs8 in Ha. now apply (int_first_not_hex7 SInt) in Ha.
+  - now apply pkix_not_hex7.
+  - unfold s_pkcs1pub in Ha. now apply (int_first_not_hex7 SBigInt) in Ha.
+  - unfold s_sec1 in Ha. now apply (int_first_not_hex7 SInt) in Ha.
+  - unfold s_pkcs1priv in Ha. now apply (int_first_not_hex7 SInt) in Ha.
+  - unfold s_dsapriv in Ha. now apply (int_first_not_hex7 SInt) in Ha.
+Qed.
+
+(* ====================================================================== *)
 (* B. the trial order of parseDERData                                      *)
 (* ====================================================================== *)
 
@@ -297,9 +605,23 @@ Lemma der_of_kind_parts : forall k d, der_of_kind k d = true ->
   end.
 Proof.
   intros k d H. unfold der_of_kind in H.
-  repeat (apply andb_true_iff in H as [H ?]). repeat split; try assumption.
-  destruct k; [exact I|]. destruct (schema_of (S k)) as [s|]; [|discriminate].
-  match goal with H : _ && _ = true |- _ => apply andb_true_iff in H as [? ?] end. eauto.
+  apply andb_true_iff in H as [H Hk]. apply andb_true_iff in H as [Ha Hb].
+  destruct k as [|k].
+  - apply andb_true_iff in Hk as [Hk _]. apply andb_true_iff in Hk as [Hs Hn]. repeat split; assumption.
+  - destruct (schema_of (S k)) as [s|] eqn:Es; [|discriminate].
+    apply andb_true_iff in Hk as [Hacc Hside].
+    destruct (key_shape (S k) s d Es Hb Hacc) as [Hs Hn].
+    repeat split; try assumption. eauto.
+Qed.
+
+Lemma der_of_kind_not_hex7 : forall k d, der_of_kind k d = true -> hex7 d = false.
+Proof.
+  intros k d H. unfold der_of_kind in H.
+  apply andb_true_iff in H as [H Hk]. apply andb_true_iff in H as [Ha Hb].
+  destruct k as [|k].
+  - apply andb_true_iff in Hk as [_ Hk]. now apply negb_true_iff in Hk.
+  - destruct (schema_of (S k)) as [s|] eqn:Es; [|discriminate].
+    apply andb_true_iff in Hk as [Hacc _]. eapply key_not_hex7; eauto.
 Qed.
 
 (* C05_trial_order: for a well-formed object of kind k no parser tried before k's accepts it *)
@@ -465,6 +787,94 @@ Proof.
   intros e w crlf trail d. unfold b64_text.
   destruct (encode_head e d) as [t ->]. destruct (wrap_head w crlf 77 t) as [t' ->].
   cbn [app]. eauto.
+Qed.
+
+(* ====================================================================== *)
+(* D2. neither presentation can be a UUID                                  *)
+(* ====================================================================== *)
+
+Lemma solid_b64char : forall u v, v < 64 -> solid (b64char u v) = true.
+Proof.
+  intros u v Hv.
+  assert (H : forall u, forallb (fun v => solid (b64char u v)) (Proofs.Base64.range 64) = true)
+    by (intros [|]; vm_compute; reflexivity).
+  exact (Proofs.Base64.forall_range (fun v => solid (b64char u v)) 64 (H u) v Hv).
+Qed.
+
+(* the base64 of n bytes: every character is solid, and there are at least 4n/3 of them *)
+Lemma encode_core_solid : forall u p n d, (length d < n)%nat -> bytes_ok d = true ->
+  forallb solid (encode_core u p d) = true /\ (4 * length d <= 3 * length (encode_core u p d))%nat.
+Proof.
+  intros u p. induction n as [|n IH]; intros d Hn Hok; [lia|].
+  destruct d as [|a [|b [|c r]]].
+  - split; [reflexivity|cbn; lia].
+  - cbn [bytes_ok forallb] in Hok. unfold byte_ok in Hok. assert (Ha : a < 256) by lia.
+    cbn [encode_core app]. destruct p; cbn [app forallb length]; rewrite !solid_b64char by lia;
+      (split; [reflexivity|lia]).
+  - cbn [bytes_ok forallb] in Hok. unfold byte_ok in Hok. assert (Ha : a < 256) by lia. assert (Hb : b < 256) by lia.
+    cbn [encode_core app]. destruct p; cbn [app forallb length]; rewrite !solid_b64char by lia;
+      (split; [reflexivity|lia]).
+  - cbn [bytes_ok forallb] in Hok. unfold byte_ok in Hok.
+    assert (Ha : a < 256) by lia. assert (Hb : b < 256) by lia. assert (Hc : c < 256) by lia.
+    assert (Hr : bytes_ok r = true) by (unfold bytes_ok, byte_ok; lia).
+    destruct (IH r ltac:(cbn [length] in Hn; lia) Hr) as [IH1 IH2].
+    cbn [encode_core app forallb length]. rewrite !solid_b64char by lia. split; [exact IH1|lia].
+Qed.
+
+Lemma count_solid_strip : forall x, count_solid (strip_nl x) = count_solid x.
+Proof.
+  intros x. unfold count_solid, strip_nl. induction x as [|c x IH]; [reflexivity|].
+  cbn [filter]. destruct (is_nl c) eqn:E; cbn [negb].
+  - assert (solid c = false).
+    { unfold is_nl in E. unfold solid, is_ascii_space. lia. }
+    now rewrite H.
+  - cbn [filter]. destruct (solid c); cbn [length]; now rewrite IH.
+Qed.
+
+Lemma filter_all : forall (A : Type) (f : A -> bool) l, forallb f l = true -> filter f l = l.
+Proof.
+  induction l as [|x l IH]; intros H; [reflexivity|]. cbn [forallb filter] in *.
+  apply andb_true_iff in H as [H1 H2]. rewrite H1. f_equal. now apply IH.
+Qed.
+
+Lemma strip_b64_text : forall e w crlf trail d, bytes_ok d = true ->
+  strip_nl (b64_text e w crlf trail d) = encode e d.
+Proof.
+  intros e w crlf trail d H.
+  destruct (Proofs.Base64.encode_core_props (enc_url e) (enc_padded e) (S (length d)) d (Nat.lt_succ_diag_r _) H)
+    as [Hnl _].
+  unfold b64_text, encode. rewrite Proofs.Base64.strip_app, (Proofs.Base64.strip_wrap _ _ _ Hnl).
+  destruct trail; [rewrite strip_eol|change (strip_nl []) with (@nil N)]; apply app_nil_r.
+Qed.
+
+(* base64 text of 34 bytes or more has more than 45 characters that TrimSpace cannot remove *)
+Theorem b64_text_not_uuid : forall e w crlf trail d, bytes_ok d = true -> (34 <= length d)%nat ->
+  uuid_possible (b64_text e w crlf trail d) = false.
+Proof.
+  intros e w crlf trail d Hb Hl. unfold uuid_possible.
+  rewrite <- count_solid_strip, (strip_b64_text e w crlf trail d Hb).
+  destruct (encode_core_solid (enc_url e) (enc_padded e) (S (length d)) d (Nat.lt_succ_diag_r _) Hb) as [Hs Hlen].
+  unfold count_solid, encode. rewrite (filter_all _ _ _ Hs).
+  destruct (Nat.leb (length (encode_core (enc_url e) (enc_padded e) d)) 45) eqn:E; [|reflexivity].
+  apply Nat.leb_le in E. lia.
+Qed.
+
+(* raw DER of a well-formed object: it starts with '0' and a byte at offsets 1..7 is no hex digit *)
+Theorem der_not_uuid : forall k d, der_of_kind k d = true -> uuid_possible d = false.
+Proof.
+  intros k d H. pose proof (der_of_kind_not_hex7 k d H) as Hh.
+  apply der_of_kind_parts in H as (_ & Hs & _). unfold uuid_possible.
+  destruct d as [|c l]; [apply andb_false_r|]. unfold starts_seq in Hs.
+  assert (c = 48). { destruct c as [|p]; [discriminate|]. do 6 (destruct p; try discriminate). reflexivity. }
+  subst c. rewrite Hh. change (negb (solid 48) || (48 =? 117) || (48 =? 85) || false) with false.
+  apply andb_false_r.
+Qed.
+
+Lemma oracle_says_no : forall so data, uuid_oracle_ok so -> uuid_possible data = false ->
+  so (bs "IsUUID") data = false.
+Proof.
+  intros so data Ho Hp. destruct (so (bs "IsUUID") data) eqn:E; [|reflexivity].
+  apply Ho in E. congruence.
 Qed.
 
 (* ====================================================================== *)
@@ -1048,15 +1458,17 @@ Section Combined.
   Notation inspect' := (inspect_file L pem_blocks sniff_other parse_other).
 
   Theorem b64_eq_der : forall n1 n2 k d e w crlf trail, (k <= 6)%nat ->
-    der_of_kind k d = true -> cert_oracle_ok L k d = true ->
+    der_of_kind k d = true -> cert_oracle_ok L k d = true -> (34 <= length d)%nat ->
     reserved_in table n1 = false -> reserved_in table n2 = false ->
-    sniff_other (bs "IsUUID") (b64_text e w crlf trail d) = false ->
-    sniff_other (bs "IsUUID") d = false ->
+    uuid_oracle_ok sniff_other ->
     inspect' n1 (b64_text e w crlf trail d) = inspect' n2 d.
   Proof.
-    intros. unfold inspect_file.
-    rewrite (inspect_b64 L pem_blocks sniff_other parse_other table n1 k d e w crlf trail) by auto using routes_table_ok_now.
-    rewrite (inspect_der L pem_blocks sniff_other parse_other table n2 k d) by auto using routes_table_ok_now.
+    intros n1 n2 k d e w crlf trail Hk Hd Hc Hl H1 H2 Ho. unfold inspect_file.
+    assert (Hb : bytes_ok d = true) by (apply der_of_kind_parts in Hd; tauto).
+    rewrite (inspect_b64 L pem_blocks sniff_other parse_other table n1 k d e w crlf trail)
+      by auto using routes_table_ok_now, oracle_says_no, b64_text_not_uuid.
+    rewrite (inspect_der L pem_blocks sniff_other parse_other table n2 k d)
+      by eauto using routes_table_ok_now, oracle_says_no, der_not_uuid.
     reflexivity.
   Qed.
 
@@ -1064,12 +1476,13 @@ Section Combined.
      (the generic dump is used only if that description is literally "unknown ASN.1 data") *)
   Theorem der_described_by_kind : forall n k d, (k <= 6)%nat ->
     der_of_kind k d = true -> cert_oracle_ok L k d = true ->
-    reserved_in table n = false -> sniff_other (bs "IsUUID") d = false ->
+    reserved_in table n = false -> uuid_oracle_ok sniff_other ->
     forall i, parse_kind L k d = Ok i -> i_desc i <> i_desc unknown_asn1 ->
     inspect' n d = Ok i.
   Proof.
-    intros n k d Hk Hd Hc Hr Hu i Hi Hn. unfold inspect_file.
-    rewrite (inspect_der L pem_blocks sniff_other parse_other table n k d) by auto using routes_table_ok_now.
+    intros n k d Hk Hd Hc Hr Ho i Hi Hn. unfold inspect_file.
+    rewrite (inspect_der L pem_blocks sniff_other parse_other table n k d)
+      by eauto using routes_table_ok_now, oracle_says_no, der_not_uuid.
     unfold asn1_file. rewrite (trial_order_thm L k d Hk Hd Hc), Hi.
     destruct (bytes_eqb (i_desc i) (i_desc unknown_asn1)) eqn:E; [|reflexivity].
     apply bytes_eqb_eq in E. contradiction.
